@@ -406,8 +406,8 @@ func runC32(c c32Case, r *ev.Rec) error {
 			}
 			return ev.Failf("quantile(%v) = NaN for a non-empty histogram (rank %v, buckets hold %v)\n h %v", qq, rank, total, h0)
 		}
-		if nanSum && rank > total*(1-c32Tol) {
-			continue // at or above the top of the buckets: NaN observations are "above everything"
+		if nanSum && (total == 0 || rank > total*(1-c32Tol)) {
+			continue // at or above the top of the buckets (or no populated bucket at all): NaN observations are "above everything"
 		}
 		if !nanSum && math.Abs(total-h.Count) > c32Tol*h.Count {
 			continue // inconsistent count without NaN observations: containment is not defined by the property
